@@ -32,7 +32,7 @@ def gen_history(rng, nops):
         if r < 0.6:
             return L
         if r < 0.75:
-            return L + rng.choice([1, 2, 3, 7, 31, 70])
+            return L + rng.choice([1, 2, 3, 7, 31, 70] + ([500, 5000] if rng.random() < 0.05 else []))
         if r < 0.85:
             return max(0, L - 1)
         return rng.choice(["max", "max-1"])
